@@ -33,6 +33,8 @@ AllConfs == {[R |-> r, dmax |-> 4, prio |-> p, req |-> q] :
                r \in Rs, p \in [Hosts -> Prios], q \in [Ids -> {o \in ReqOpts : ReqOK(o)}]}
 \* equal priorities: the part of the space where the code's host order is the documented one
 EqConfs == {c \in AllConfs : \A g, h \in Hosts : c.prio[g] = c.prio[h]}
+\* requests that use back-off and mirrors (sequences of plain reads on one client)
+PlainConfs == {c \in EqConfs : \A i \in Ids : ~c.req[i].ie /\ ~c.req[i].nomir /\ ~c.req[i].oneshot /\ ~c.req[i].expect}
 \* uploads whose body can be sent only once, followed by other traffic (throttle slots after a not-retryable abort)
 OneShotConfs == {c \in EqConfs : \E i \in Ids : c.req[i].oneshot}
 \* generator: at least two such uploads and one plain read, nothing opted out of back-off
